@@ -30,6 +30,16 @@ type SCase struct {
 	// Pad: extra option bytes, so that datagrams differ in length (a recycled buffer
 	// that was resliced shorter must be resliced back)
 	Pad []int `json:"pad"`
+	// Mode: "" (C16: every assertion) | "C12" (only: a DHCPv6 reply goes back to the source
+	// address and port of its own request)
+	Mode string `json:"mode,omitempty"`
+}
+
+// GenS12 draws DHCPv6 cases for C12
+func GenS12(t *rapid.T) SCase {
+	c := GenS(t)
+	c.V6, c.Mode = true, "C12"
+	return c
 }
 
 // GenS draws a case
@@ -44,9 +54,17 @@ func GenS(t *rapid.T) SCase {
 // ExecS sends the bursts and checks that every recorded reply belongs to exactly one request
 func ExecS(c SCase) (res core.Result) {
 	plug.Reset()
+	if c.Mode != "" {
+		defer func() {
+			if res.Viol != nil && len(res.Viol.Signature) >= 3 && res.Viol.Signature[:3] != c.Mode {
+				res = core.Result{Classes: []string{"abandoned:" + res.Viol.Signature[:3]}}
+			}
+		}()
+	}
 	type want struct {
 		id  []byte // chaddr / client duid
 		pad int
+		src *net.UDPAddr
 	}
 	reqs := map[uint32]want{}
 	wires := map[uint32][]byte{}
@@ -89,6 +107,7 @@ func ExecS(c SCase) (res core.Result) {
 	}
 	defer closeFn()
 	var wg sync.WaitGroup
+	resent := map[uint32]bool{}
 	total := 0
 	for sdr := 0; sdr < c.Senders; sdr++ {
 		network := "udp4"
@@ -114,7 +133,7 @@ func ExecS(c SCase) (res core.Result) {
 					opts = append(opts, gen.Opt6(65002, bytes.Repeat([]byte{byte(k)}, pad)))
 				}
 				dgrams = append(dgrams, gen.Msg6(gen.M6Solicit, xid, opts...))
-				reqs[xid] = want{duid, pad}
+				reqs[xid] = want{duid, pad, conn.LocalAddr().(*net.UDPAddr)}
 				wires[xid] = dgrams[len(dgrams)-1]
 			} else {
 				p := gen.Pkt4{Op: 1, HType: 1, HLen: 6, Xid: xid, CHAddr: hex.EncodeToString(id), GIAddr: "127.0.0.1"}
@@ -127,7 +146,7 @@ func ExecS(c SCase) (res core.Result) {
 					p.Opts = append(p.Opts, gen.Opt4{Code: byte(200 + len(p.Opts)), Hex: hex.EncodeToString(bytes.Repeat([]byte{byte(k)}, n))})
 				}
 				dgrams = append(dgrams, p.Bytes())
-				reqs[xid] = want{id, pad}
+				reqs[xid] = want{id, pad, conn.LocalAddr().(*net.UDPAddr)}
 				wires[xid] = dgrams[len(dgrams)-1]
 			}
 			total++
@@ -174,6 +193,7 @@ func ExecS(c SCase) (res core.Result) {
 			defer conn.Close()
 			for xid, d := range wires {
 				for try := 0; try < 4 && !got[xid]; try++ {
+					resent[xid] = true
 					conn.Write(d)
 					for w := 0; w < 100 && !got[xid]; w++ {
 						time.Sleep(2 * time.Millisecond)
@@ -222,6 +242,18 @@ func ExecS(c SCase) (res core.Result) {
 		if !bytes.Equal(w.id, id) {
 			res.Viol = core.Violate("C16/cross-talk", "Serve loop: the reply to xid %#x carries client %x, the request had %x: receive buffers were mixed up", xid, id, w.id)
 			return
+		}
+		// a DHCPv6 reply goes back to where its request came from (the datagrams sent again one
+		// at a time come from another socket: those transaction ids are not judged)
+		if c.V6 && !resent[xid] {
+			if s.Peer == nil || s.Peer.Port != w.src.Port || !s.Peer.IP.Equal(w.src.IP) {
+				sig := "C16/cross-talk/destination"
+				if c.Mode == "C12" {
+					sig = "C12/reply-to-wrong-source"
+				}
+				res.Viol = core.Violate(sig, "Serve loop: the reply to xid %#x (sent from %v) was addressed to %v: one of %d datagrams sent back to back from %d sockets", xid, w.src, s.Peer, total, c.Senders)
+				return
+			}
 		}
 		seen[xid] = true
 	}
